@@ -12,6 +12,7 @@ import (
 	"compress/gzip"
 	"encoding/binary"
 	"fmt"
+	"time"
 
 	"github.com/xelaj/mtproto/zverif/ref/mtp1"
 	"github.com/xelaj/mtproto/zverif/ref/tlw"
@@ -159,7 +160,7 @@ func (s *Server) now() int64 {
 	if s.Clock != nil {
 		return s.Clock()
 	}
-	return 1600000000 * 1e9
+	return time.Now().UnixNano() // free-running mode: the client's clock is the wall clock
 }
 
 func (s *Server) nextID(parity int64) int64 {
